@@ -23,7 +23,9 @@ func verifEmptyOperand(ctx *Context) Expression {
 
 // verifOtherOperand: the other operand ranges over empty and singletons of several types.
 func verifOtherOperand(label string) Expression {
-	switch verifrt.Choose(label+".form", 5) {
+	switch verifrt.Choose(label+".form", 6) {
+	case 5: // several items: the empty operand still decides (a repeating element against an absent one)
+		return verifConst(system.Collection{system.Integer(verifrt.NondetIntRange(label+".m0", 0, 2)), system.Integer(verifrt.NondetIntRange(label+".m1", 0, 2))})
 	case 0:
 		return &LiteralExpression{}
 	case 1:
